@@ -33,6 +33,10 @@ DYN_APPLY_ENSURES = [
     ("only the file being processed can change on disk",
      "fs == store(old(fs), file_context.file_path, fs[file_context.file_path])"),
     ("dry-run or no changeset => nothing is written", "implies(context.dry_run or result is None, fs == old(fs))"),
+    ("a file that cannot be read or decoded is listed as failed (by every pipeline, for every codemod that processes it)",
+     "implies(raised_by('OSError', file_context.file_path.read_bytes()) or not decodable(old(fs)[file_context.file_path]),"
+     " result is None and len(file_context.failures) == len(old(file_context.failures)) + 1"
+     " and file_context.failures[len(file_context.failures) - 1] == file_context.file_path)"),
 ]
 _FC_MOD = ["file_context.codemod_changes", "file_context.unfixed_findings", "file_context.failures",
            "file_context.dependencies", "ghost:fs"]
@@ -72,6 +76,10 @@ contract("codemodder.codemods.base_codemod.BaseCodemod._process_file", props=["C
              ("no finding of this codemod's rules in this file => the transformer is not invoked: nothing written, nothing reported",
               "implies(results is not None and all(len(" + _LOOKUP + ") == 0 for j in range(len(rules))),"
               " fs == old(fs) and len(result.changesets) == 0 and len(result.codemod_changes) == 0 and len(result.failures) == 0)"),
+             ("a processed file that cannot be read or decoded is listed as failed by THIS codemod, whatever happened to it earlier in the run",
+              "implies((results is None or len(cat_rfr(results, context, rules, filename, len(rules))) > 0)"
+              " and (raised_by('OSError', filename.read_bytes()) or not decodable(old(fs)[filename])),"
+              " len(result.failures) == 1 and result.failures[0] == filename)"),
              ("only this file can change on disk", "fs == store(old(fs), filename, fs[filename])"),
              ("dry-run writes nothing", "implies(context.dry_run, fs == old(fs))"),
              ("line excludes: a path:line pattern spelled relative to the target applies to this file (must)",
